@@ -59,7 +59,10 @@ C09Fails(e) ==
              \cup (IF e.re2 # e.re THEN {"second-cycle-differs"} ELSE {}))
        \cup (IF e.clr = <<>> THEN {"cannot-encode-after-clearing-raw"}
              ELSE (IF e.clr2a # e.clr \/ e.clr2b # e.clr THEN {"canonical-form-not-a-fixed-point"} ELSE {})
-                  \cup (IF e.clr # ClearedPrediction(e.kind, e.wire) THEN {"form-after-discarding-raw-bytes-is-not-the-canonical-encoding-of-the-same-content"} ELSE {}))
+                  \* "a canonical form" is a form of THIS message: where the host language represents every header value losslessly
+                  \* (no tagged values: a tag-1 time, for one, comes back as a plain integer) it is the deterministic encoding of the same content
+                  \cup (IF ConformingTagFree(e.kind, e.wire) /\ e.clr # ClearedPrediction(e.kind, e.wire)
+                        THEN {"form-after-discarding-raw-bytes-is-not-the-canonical-encoding-of-the-same-content"} ELSE {}))
 
 Fails(e) ==
   CrossCheck(e) \cup
